@@ -98,6 +98,7 @@ class Check:
         self.outdir = os.path.join(ROOT, "out", prop)
         self._printed_known = set()
         self.viol_keys = {}
+        self.dry = False      # selftests: do not write evidence
 
     # ---- coverage accounting -------------------------------------------------------------
     def mc(self, res, name):
@@ -173,9 +174,10 @@ class Check:
         ev = {"property_id": self.prop, "tier": self.tier, "seed": self.seed, "level": self.level,
               "coverage": jsonable(cov), "assumptions": self.assumptions,
               "wall_s": round(time.time() - self.t0, 2), "violations": self.violations}
-        os.makedirs(os.path.join(ROOT, "evidence"), exist_ok=True)
-        with open(os.path.join(ROOT, "evidence", self.prop + ".json"), "w") as f:
-            json.dump(ev, f, indent=1)
+        if not self.dry:
+            os.makedirs(os.path.join(ROOT, "evidence"), exist_ok=True)
+            with open(os.path.join(ROOT, "evidence", self.prop + ".json"), "w") as f:
+                json.dump(ev, f, indent=1)
         for k, n in sorted(self.viol_keys.items()):
             print("  violation class %s: %d" % (k, n))
         print("%s %s: %d cases (%d non-trivial), %d traces, %d TLC states, %d violations, %.1fs" % (
